@@ -173,3 +173,48 @@ func VerifC11StructEscapedKey() {
 	v.Assert(dst == 7, "a field whose key is written with an escape sequence is not filled (lookup used the raw key text)")
 	v.Cover("end")
 }
+
+// VerifC11SliceBytesEscaped: a base64 text written with an escape sequence ("\/" as PHP emits)
+// is decoded from its UNESCAPED spelling. The DOM is what parse_with_padding builds for the
+// document "YWI\/Yw==": the node is marked escaped, carries the unescaped length and the
+// unescaped bytes live in the padded copy only.
+func VerifC11SliceBytesEscaped() {
+	const doc = `"YWI\/Yw=="`
+	padded := make([]byte, len(doc)+64)
+	copy(padded, doc)
+	copy(padded[1:], "YWI/Yw==") // in-place unescape done by the native parser
+	esc := v.Bool("escaped")
+	var nodes []node
+	var p *Parser
+	if esc {
+		nodes = []node{{typ: uint64(KStringEscaped) | 1<<PosBits, val: 8}}
+		p = &Parser{Json: doc, padded: padded, nodes: nodes}
+		v.Cover("escaped")
+	} else {
+		const plain = `"YWIvYw=="`
+		nodes = []node{{typ: uint64(KStringCommon) | 1<<PosBits, val: 8}}
+		pd := make([]byte, len(plain)+64)
+		copy(pd, plain)
+		p = &Parser{Json: plain, padded: pd, nodes: nodes}
+		v.Cover("plain")
+	}
+	ctx := &context{Parser: p}
+	var given string
+	if v.Symbolic() {
+		v.Stub("github.com/bytedance/sonic/internal/rt.DecodeBase64", func(raw []byte) ([]byte, error) {
+			given = string(raw)
+			return []byte("ab?c"), nil
+		})
+	}
+	root := Node{cptr: uintptr(unsafe.Pointer(&nodes[0]))}
+	b, err := root.AsSliceBytes(ctx)
+	if v.Symbolic() {
+		if esc {
+			v.Assert(given == "YWI/Yw==", "the base64 decoder is not given the unescaped text of an escaped string")
+		} else {
+			v.Assert(given == "YWIvYw==", "the base64 decoder is not given the string's text")
+		}
+	}
+	v.Assert(err == nil, "a valid base64 string (written with an escape sequence) is rejected for a []byte destination")
+	v.Assert(string(b) == "ab?c", "wrong bytes decoded from a base64 string")
+}
